@@ -193,14 +193,69 @@ pub fn run(cli: &Cli, rep: &Report) {
         },
     );
 
-    if cli.only.is_none() || cli.selected("C02|sweep") {
+    if cli.only.as_ref().is_none_or(|o| o.iter().any(|d| d.starts_with("C02|sweep|"))) {
         sweeps(cli, rep, thorough);
     }
 }
 
 /// Complete-domain enumeration of the header dictionary-size codecs: the size the reader will
 /// derive from the header byte must never be smaller than the size the encoder was given.
-fn sweeps(_cli: &Cli, rep: &Report, thorough: bool) {
+fn xz_prop_decode(p: u8) -> u64 {
+    if p == 40 {
+        0xFFFF_FFFF
+    } else {
+        ((2 | (p & 1) as u64) << (p / 2 + 11)) as u64
+    }
+}
+
+/// one value of the LZIP sweep; false = bad (reported when `report`)
+fn lzip_one(rep: &Report, d: u32, report: bool) -> bool {
+    let byte = diff::lzip_encode_dict_size(d);
+    let back = byte.and_then(diff::lzip_decode_dict_size);
+    let ok = matches!(back, Some(b) if b >= d);
+    if !ok && report {
+        rep.violation(
+            Violation::new("header-dict-too-small", "lzip dictionary size byte decodes to less than the encoder's dictionary", format!("C02|sweep|lzip|d={d}"))
+                .attr("family", "lzip")
+                .attr("sweep", "lzip-dict-byte")
+                .detail(format!("dict_size={d} header byte={byte:?} decodes to {back:?}")),
+        );
+    }
+    ok
+}
+
+/// one value of the XZ sweep
+fn xz_one(rep: &Report, d: u64, report: bool) -> bool {
+    let p = diff::xz_encode_lzma2_dict_size(d as u32);
+    let ok = match p {
+        None => d > (3u64 << 30), // sizes above the largest representable one (3 GiB) may be refused
+        Some(p) => p <= 40 && xz_prop_decode(p) >= d,
+    };
+    if !ok && report {
+        rep.violation(
+            Violation::new("header-dict-too-small", "xz LZMA2 dictionary size property decodes to less than the encoder's dictionary", format!("C02|sweep|xz|d={d}"))
+                .attr("family", "xz")
+                .attr("sweep", "xz-dict-prop")
+                .detail(format!("dict_size={d} prop={p:?} decodes to {:?}", p.map(xz_prop_decode))),
+        );
+    }
+    ok
+}
+
+fn sweeps(cli: &Cli, rep: &Report, thorough: bool) {
+    if let Some(only) = &cli.only {
+        // replay: just the values named by the selected descriptors
+        for desc in only {
+            if let Some(d) = desc.strip_prefix("C02|sweep|lzip|d=").and_then(|x| x.parse::<u32>().ok()) {
+                rep.add("evaluations", 1);
+                lzip_one(rep, d, true);
+            } else if let Some(d) = desc.strip_prefix("C02|sweep|xz|d=").and_then(|x| x.parse::<u64>().ok()) {
+                rep.add("evaluations", 1);
+                xz_one(rep, d, true);
+            }
+        }
+        return;
+    }
     // LZIP: every d in 4096..=512 MiB (thorough) / every d below 2^22 plus +-2 around every
     // representable size and power of two (quick).
     let lzip_ranges: Vec<(u32, u32)> = if thorough {
@@ -230,22 +285,13 @@ fn sweeps(_cli: &Cli, rep: &Report, thorough: bool) {
             |cnt, b| {
                 let start = lo as u64 + (b as u64) * (1 << 16);
                 let end = (start + (1 << 16)).min(hi as u64 + 1);
+                let mut reported = 0;
                 for d in start..end {
-                    let d = d as u32;
                     *cnt += 1;
-                    let ok = match diff::lzip_encode_dict_size(d) {
-                        None => false,
-                        Some(byte) => matches!(diff::lzip_decode_dict_size(byte), Some(back) if back >= d),
-                    };
-                    if !ok && bad.fetch_add(1, Ordering::Relaxed) < 8 {
-                        let byte = diff::lzip_encode_dict_size(d);
-                        let back = byte.and_then(diff::lzip_decode_dict_size);
-                        rep.violation(
-                            Violation::new("header-dict-too-small", "lzip dictionary size byte decodes to less than the encoder's dictionary", format!("C02|sweep|lzip|d={d}"))
-                                .attr("family", "lzip")
-                                .attr("sweep", "lzip-dict-byte")
-                                .detail(format!("dict_size={d} header byte={byte:?} decodes to {back:?}")),
-                        );
+                    // the first two bad values of every block are reported (a deterministic set)
+                    if !lzip_one(rep, d as u32, reported < 2) {
+                        bad.fetch_add(1, Ordering::Relaxed);
+                        reported += 1;
                     }
                 }
             },
@@ -259,13 +305,7 @@ fn sweeps(_cli: &Cli, rep: &Report, thorough: bool) {
     rep.add("evaluations", evals.load(Ordering::Relaxed));
 
     // XZ / LZMA2 property byte: every u32 >= 4096 (thorough) / boundaries (quick)
-    let decode = |p: u8| -> u64 {
-        if p == 40 {
-            0xFFFF_FFFF
-        } else {
-            ((2 | (p & 1) as u64) << (p / 2 + 11)) as u64
-        }
-    };
+    let decode = xz_prop_decode;
     let xz_ranges: Vec<(u64, u64)> = if thorough {
         vec![(4096, u32::MAX as u64)]
     } else {
@@ -291,20 +331,12 @@ fn sweeps(_cli: &Cli, rep: &Report, thorough: bool) {
             |cnt, b| {
                 let start = lo + (b as u64) * (1 << 18);
                 let end = (start + (1 << 18)).min(hi + 1);
+                let mut reported = 0;
                 for d in start..end {
                     *cnt += 1;
-                    let ok = match diff::xz_encode_lzma2_dict_size(d as u32) {
-                        None => d > (3u64 << 30), // sizes above the largest representable one (3 GiB) may be refused
-                        Some(p) => p <= 40 && decode(p) >= d,
-                    };
-                    if !ok && bad2.fetch_add(1, Ordering::Relaxed) < 8 {
-                        let p = diff::xz_encode_lzma2_dict_size(d as u32);
-                        rep.violation(
-                            Violation::new("header-dict-too-small", "xz LZMA2 dictionary size property decodes to less than the encoder's dictionary", format!("C02|sweep|xz|d={d}"))
-                                .attr("family", "xz")
-                                .attr("sweep", "xz-dict-prop")
-                                .detail(format!("dict_size={d} prop={p:?} decodes to {:?}", p.map(decode))),
-                        );
+                    if !xz_one(rep, d, reported < 2) {
+                        bad2.fetch_add(1, Ordering::Relaxed);
+                        reported += 1;
                     }
                 }
             },
